@@ -177,9 +177,24 @@ func c07History(c *runner.Ctx, idx uint64) {
 	cumAlloc := 0
 	var kept []c07Kept
 	var hist []string
+	// one history in three changes the configured budget between its runs: a
+	// fresh VM reads it at every run, and so must a reused one
+	altBudget := 0
+	if r.Chance(1, 3) {
+		altBudget = []int{20, 50, 100, 300, 1000, 10000, 1000000}[r.Intn(7)]
+		c.Count("histories_with_budget_changes", 1)
+	}
 	for si, pi := range steps {
 		pr := pool[pi]
 		e := es[r.Intn(len(es))]
+		if altBudget != 0 && r.Chance(1, 4) {
+			if vm.MemoryBudget == budget {
+				vm.MemoryBudget = altBudget
+			} else {
+				vm.MemoryBudget = budget
+			}
+			c.Count("budget_changes_inside_histories", 1)
+		}
 		panicAt := 0
 		if r.Chance(1, 6) {
 			panicAt = 1 + r.Intn(4)
@@ -239,7 +254,7 @@ func c07History(c *runner.Ctx, idx uint64) {
 		if !same {
 			c.Violate("differs-from-fresh:"+outcomeKey(o1)+"/"+outcomeKey(o2),
 				fmt.Sprintf("step %d on a reused VM returned %s, a fresh VM returns %s", si, o1, o2),
-				map[string]interface{}{"programs": poolSources(pool), "step": si, "program": pr.src, "budget": budget, "history_prefix": hist,
+				map[string]interface{}{"programs": poolSources(pool), "step": si, "program": pr.src, "budget": budget, "budget_at_step": vm.MemoryBudget, "history_prefix": hist,
 					"reused": o1.String(), "fresh": o2.String(), "reused_calls": calls1, "fresh_calls": calls2, "optimize": optimize})
 			break
 		}
